@@ -108,7 +108,8 @@ pub fn apply(name: &str, input: &[u8]) -> bool {
             for _ in 0..4 {
                 match codec.decode(&mut buf) {
                     Ok(Some(_)) => continue,
-                    Ok(None) => return true,
+                    // the peer may end its stream here: what a framed reader does at end of stream
+                    Ok(None) => return codec.decode_eof(&mut buf).is_ok(),
                     Err(_) => return false,
                 }
             }
